@@ -25,8 +25,9 @@ func init() {
 			}
 			return 3000
 		},
-		Run:      runC20,
-		Required: []string{"pool_gets", "pool_puts", "held_checks", "shared_pool_connections"},
+		Run:          runC20,
+		BeatTimeoutS: 60,
+		Required:     []string{"pool_gets", "pool_puts", "held_checks", "shared_pool_connections"},
 		Assumptions: []string{
 			"the pool value is opened with the verif hook VerifPoolBuf to fingerprint and poison released buffers",
 			"schedules of the concurrent family are sampled",
@@ -77,7 +78,7 @@ func runC20(ctx *core.Ctx, out *core.Out) {
 	} else if max > 40*cfg.WB {
 		max = 40 * cfg.WB // keeps the number of transport operations (and so of fault points) affordable
 	}
-	prog := genProgram(r, cfg, ProgOpts{MaxMsgs: 4, MaxSize: max, Invalid: true, BadJSON: true})
+	prog := genProgram(r, cfg, ProgOpts{MaxMsgs: 4, MaxSize: max, Invalid: true, BadJSON: true, FailSource: true})
 	desc := rtCase{Cfg: cfg, Prog: progDesc(prog)}
 	ph := core.Hash(core.J(desc))
 	out.Count("shared_pool_connections", 0)
@@ -104,7 +105,7 @@ func runC20(ctx *core.Ctx, out *core.Out) {
 			switch cl.Name {
 			case "NextWriter":
 				openOK = cl.Err == nil
-			case "Write", "WriteString", "ReadFrom":
+			case "Write", "WriteString", "ReadFrom", "ReadFrom(failing source)":
 				if cl.Err != nil {
 					openOK = false
 				}
@@ -236,7 +237,7 @@ func runC20Shared(ctx *core.Ctx, out *core.Out) {
 	var all []interface{}
 	for i := range conns {
 		cfg := Cfg{Server: r.Bool(), RB: 256, WB: wb, Pool: true, Comp: r.Chance(1, 3)}
-		prog := genProgram(gen.For(ctx.Seed, fmt.Sprintf("c20s/%d", i), ctx.Idx), cfg, ProgOpts{MaxMsgs: 6, MaxSize: 4 * wb, Invalid: true, BadJSON: true})
+		prog := genProgram(gen.For(ctx.Seed, fmt.Sprintf("c20s/%d", i), ctx.Idx), cfg, ProgOpts{MaxMsgs: 6, MaxSize: 4 * wb, Invalid: true, BadJSON: true, FailSource: true})
 		nc := xport.New(nil)
 		conns[i] = &one{cfg: cfg, prog: prog, nc: nc}
 		conns[i].w = NewWriter(newConn(nc, cfg, pool, i), cfg)
